@@ -236,7 +236,6 @@ func newCluster(w *simrt.World, res *Result, root string, rf int, size int64, nr
 			d := time.Duration(0)
 			if now > c.punchFree[node] || c.punchBursts[node] == 0 {
 				c.punchBursts[node]++
-				d = time.Nanosecond
 				if c.punchLag > 0 {
 					d = time.Duration(1+w.Rand(fmt.Sprintf("punchlag:%s:%d", node, c.punchBursts[node]))%uint64(c.punchLag)) * time.Millisecond
 					statMu.Lock()
@@ -244,7 +243,9 @@ func newCluster(w *simrt.World, res *Result, root string, rf int, size int64, nr
 					statMu.Unlock()
 				}
 				c.punchFree[node] = now + d
-				w.TraceNote("punch-burst %s #%d delay %v", node, c.punchBursts[node], d)
+				if d > 0 {
+					w.TraceNote("punch-burst %s #%d delay %v", node, c.punchBursts[node], d)
+				}
 			}
 			c.mu.Unlock()
 			if d > 0 {
